@@ -65,6 +65,12 @@ PLANS = {
                      ex("spn3s", "spn", 3, 3, kinds=["slice", "bytes"], modes=["E"], invariants=INV_SPANS),
                      rec("spnR", "spn", 20000, 10, 10, kinds=["str", "slice"]), rec("spngR", "spng", 20000, 10, 10, kinds=["mapped", "mstream", "stream"])],
     },
+    "C09": {
+        "quick": [ex("pratt", "pratt", 1, 4, alphabet=["a", "+", "*", "-", "!", "^"], modes=["E"], invariants=DEFAULT_INVARIANTS + ["PrattFlatten"]),
+                  rec("prattR", "pratt", 2500, 6, 9)],
+        "thorough": [ex("pratt", "pratt", 1, 5, alphabet=["a", "+", "*", "-", "!", "^"], invariants=DEFAULT_INVARIANTS + ["PrattFlatten"]),
+                     rec("prattR", "pratt", 40000, 6, 12)],
+    },
     "C10": {
         "quick": [ex("peg2k", "peg", 2, 2, kinds=ALL_KINDS, modes=["E"]), ex("rep2k", "rep", 2, 3, alphabet=["a", ","], kinds=["stream", "mapped", "io"], modes=["E"]),
                   ex("rcv2k", "rcv", 2, 3, kinds=["bstream", "mstream", "wctx"], modes=["E"]),
